@@ -717,6 +717,10 @@ func flowRule(c *core.Ctx) {
 							f = v
 						} else if call, isCall := v.(*ssa.Call); isCall && call.Call.StaticCallee() != nil {
 							f = v
+						} else if ex, isEx := v.(*ssa.Extract); isEx && ex.Index == 1 {
+							if lk, isLk := ex.Tuple.(*ssa.Lookup); isLk && lk.CommaOk {
+								f = v // _, has := candidates[UCS2]
+							}
 						}
 					}
 				}
@@ -874,6 +878,30 @@ func flowRule(c *core.Ctx) {
 			if !sameSet {
 				ok, why = false, "the helper is not applied to the candidate set that Build iterates"
 			}
+		case *ssa.Extract:
+			// _, has := candidates[UCS2]: membership of the UCS-2 coding in the very set that Build iterates
+			lk, isLk := fv.Tuple.(*ssa.Lookup)
+			if !isLk || !lk.CommaOk || fv.Index != 1 {
+				why = "the flag is not the outcome of a map lookup"
+				break
+			}
+			if isU, w := isUCS2Const(lk.Index); !isU {
+				why = w
+				break
+			}
+			sameSet := false
+			for _, b := range build.Blocks {
+				for _, ins := range b.Instrs {
+					if rg, isRg := ins.(*ssa.Range); isRg && rg.X == lk.X {
+						sameSet = true
+					}
+				}
+			}
+			if !sameSet {
+				why = "the lookup is not made in the candidate set that Build iterates"
+				break
+			}
+			ok, why = true, ""
 		}
 		c.Decide(ok, "C09-FLOW", "Build#ucs2-flag", pos, "flag := false; set to true exactly under `candidate == UCS2`", why)
 	}
@@ -892,6 +920,12 @@ func flowRule(c *core.Ctx) {
 			}
 			return false
 		}
+		type fbChoice struct {
+			coding ssa.Value
+			at     *ssa.BasicBlock // the block on the way to which the protocol has been established
+			call   *ssa.Call
+		}
+		var pending []fbChoice
 		for _, b := range fr.Blocks {
 			if inAnyLoop(b) {
 				continue
@@ -902,7 +936,62 @@ func flowRule(c *core.Ctx) {
 					continue
 				}
 				n++
-				mi, isMI := call.Call.Args[1].(*ssa.MakeInterface)
+				// the coding may be chosen first and the encoder built once: ucs2 := <by protocol>; if ucs2 != nil { newBatchEncoder(.., ucs2, ..) }
+				if ph, isPhi := call.Call.Args[1].(*ssa.Phi); isPhi {
+					hasNil := false
+					type choice struct {
+						v    ssa.Value
+						from *ssa.BasicBlock
+					}
+					var choices []choice
+					var collect func(ph *ssa.Phi, depth int)
+					collect = func(ph *ssa.Phi, depth int) {
+						for i, e := range ph.Edges {
+							if inner, isInner := e.(*ssa.Phi); isInner && depth < 3 {
+								collect(inner, depth+1)
+								continue
+							}
+							if paths.IsNilConst(e) {
+								hasNil = true
+								continue
+							}
+							choices = append(choices, choice{e, ph.Block().Preds[i]})
+						}
+					}
+					collect(ph, 0)
+					if hasNil {
+						guarded := false
+						for x := b; x != nil && x.Idom() != nil; x = x.Idom() {
+							d := x.Idom()
+							ifi, isIf := d.Instrs[len(d.Instrs)-1].(*ssa.If)
+							if !isIf || d.Succs[0] == d.Succs[1] {
+								continue
+							}
+							if subj, neq, isNil := nilTest(ifi.Cond); isNil && subj == ssa.Value(ph) {
+								vt, vf := viaEdge(d, x)
+								if (neq && vt) || (!neq && vf) {
+									guarded = true
+								}
+							}
+						}
+						if !guarded {
+							problems = append(problems, "the fallback encoder at "+c.Prog.Pos(call.Pos())+" may be built with a nil coding")
+						}
+					}
+					n--
+					for _, ch := range choices {
+						n++
+						pending = append(pending, fbChoice{ch.v, ch.from, call})
+					}
+					continue
+				}
+				pending = append(pending, fbChoice{call.Call.Args[1], b, call})
+			}
+		}
+		for _, fc := range pending {
+			{
+				call, b := fc.call, fc.at
+				mi, isMI := fc.coding.(*ssa.MakeInterface)
 				var kc *ssa.Const
 				if isMI {
 					kc, _ = mi.X.(*ssa.Const)
